@@ -1,5 +1,7 @@
-(* Model of aw_core/config.py as it is now in /repo (after a606824 and e3aa5a3):
-   _merge, _comment_out_toml, load_config_toml.  Definitions only.
+(* Model of aw_core/config.py as it is now in /repo (after a606824, e3aa5a3 and baead4f):
+   _merge, _comment_out_toml, load_config_toml.  Definitions only.  Since baead4f
+   load_config_toml hands _merge the unwrapped plain dicts, which is what this model always
+   merged (a tree of association lists); [parse] below stands for tomlkit.parse + unwrap.
 
    Values.  A TOML value as _merge sees it is either a dict (tomlkit Container, Table,
    InlineTable, OutOfOrderTableProxy: all dict subclasses) or not.  Keys are integer labels
